@@ -14,6 +14,7 @@ class Est:
 
     def __init__(self, db, adt_path):
         self.db = db
+        adt_path = db.canon(adt_path)
         self.path = adt_path
         self.adt = db.adts.get(adt_path)
         self.methods = {}
@@ -29,7 +30,7 @@ class Est:
         if not d:
             return None
         if trait is not None:
-            return d.get(trait)
+            return d.get(self.db.canon(trait))
         if None in d:
             return d[None]
         if len(d) == 1:
@@ -173,6 +174,8 @@ def site(span, repo=None):
     if not span:
         return "?"
     s = span.get("sp", "?")
+    if span.get("cs") and ("/library/" in s or "/rustlib/" in s):
+        s = span["cs"]   # inside a std macro: report the expansion site in the crate
     i = s.find("/src/")
     if i >= 0:
         s = s[i + 1:]
